@@ -6,7 +6,7 @@ REPLAY = dict(src='replay/c27_replay.cpp', cxxflags=['-DNDEBUG', '-I/repo/tests/
               repo_sources=['tests/test_tools/test_radio.cpp', 'tests/test_tools/test_servers.cpp', 'tests/test_tools/hexdump.cpp', 'tests/test_tools/buffer_io.cpp', 'tests/test_tools/address_io.cpp',
                             'bluetoe/link_layer/delta_time.cpp', 'bluetoe/link_layer/channel_map.cpp', 'bluetoe/link_layer/connection_details.cpp', 'bluetoe/utility/address.cpp'])
 UNITS = [llc.unit('C27_CLAUSES', enforce=['handle_ll_control_data'], replay=REPLAY),
-         lle.unit(['ll_timeout', 'll_end_event', 'transmit_pending_control_pdus', 'valid_phy_encoding', 'handle_phy_request'], replay=REPLAY),
+         lle.unit(['ll_timeout', 'll_end_event', 'transmit_pending_control_pdus', 'valid_phy_encoding', 'handle_phy_request', 'adv_received'], replay=REPLAY),
          C27cpr.UNIT]
 META = dict(
     level='other',
@@ -23,7 +23,8 @@ META = dict(
                 "planning the next event; it is ended only by the answer to the procedure it belongs to (LL_VERSION_IND after the own one, LL_PHY_UPDATE_IND after the own "
                 "LL_PHY_REQ, LL_UNKNOWN_RSP / reject naming the request, LL_CONNECTION_UPDATE_IND applied at its instant) - a version exchange or PHY update started by the "
                 "central leaves it running. LL_PHY_REQ(3) -> LL_PHY_RSP( 1M | 2M, 1M | 2M ); LL_PHY_UPDATE_IND(5) with defined PHYs is never answered; other PHY PDUs are "
-                "left to the caller (LL_UNKNOWN_RSP). "
+                "left to the caller (LL_UNKNOWN_RSP). 'Per connection': adv_received (real body) starts every accepted connection with all request / version / time out "
+                "state cleared. "
                 "Parameter request handling (unit parameter_request, ll_options.hpp, real bodies of parse_and_check_params and of the three implementations of "
                 "handle_connection_parameters_request, every request content and every configured range): a request with Interval_Max < Interval_Min, Interval_Min < 7.5 ms, "
                 "Interval_Max > 4 s or latency > 499 is answered with LL_REJECT_EXT_IND( LL_CONNECTION_PARAM_REQ, invalid LL parameters ); otherwise - no configuration: "
